@@ -44,3 +44,12 @@ package ingest
 //@   havoc
 //@ func (*ModifiedFeatures).Update
 //@   havoc
+
+// ---- C26: what Change.Apply returned is recorded in the caller's ghost state ----
+//@ func Change.Apply
+//@   trusted
+//@   sets applied = true
+//@   sets applyFailed = result1 != nil
+//@ func Worlds.FindOrCreateWorld
+//@   trusted
+//@   pure
